@@ -470,6 +470,16 @@ func c17(run *ev.Run, tier string) {
 		docs = append(docs, c17Doc{"enum|version_schema|" + vs, s.YAML(), formats})
 	}
 	{
+		// list members with their optional keys left out (an alternative without
+		// priority, a content entry with nothing but src and dst, a trigger-less deb block)
+		s := base()
+		s.IPK.Alternatives = []gen.IPKAlt{{Target: "/usr/bin/tool-1", LinkName: "/usr/bin/tool"}, {Priority: 5, Target: "/usr/bin/tool-2", LinkName: "/usr/bin/tool"}}
+		docs = append(docs, c17Doc{"optional-keys-left-out|ipk.alternatives", s.YAML(), []string{"ipk"}})
+		s2 := base()
+		s2.SetOverride("ipk", &gen.Over{IPK: gen.IPK{Alternatives: []gen.IPKAlt{{Target: "/usr/bin/tool-1", LinkName: "/usr/bin/tool"}}}})
+		docs = append(docs, c17Doc{"optional-keys-left-out|overrides.ipk.alternatives", s2.YAML(), []string{"ipk"}})
+	}
+	{
 		s := base()
 		s.Platform = "darwin"
 		docs = append(docs, c17Doc{"platform|darwin", s.YAML(), []string{"deb", "rpm"}})
@@ -497,25 +507,108 @@ func c17(run *ev.Run, tier string) {
 		docs = append(docs, c17Doc{fmt.Sprintf("generated|%d|%s", i, c.Fingerprint()), c.Spec.YAML(), formats})
 	}
 
+	// other spellings of enumerated values (upper / mixed case): the schema does
+	// not list them, so a document using one is a probe - IF the parser accepts
+	// it and the packager builds it, the schema has to accept it as well
+	probes := map[string]bool{}
+	variants := func(v string) []string {
+		out := []string{strings.ToUpper(v)}
+		if len(v) > 1 {
+			out = append(out, strings.ToUpper(v[:1])+v[1:])
+		}
+		return out
+	}
+	for _, c := range []string{"gzip", "xz", "zstd", "none"} {
+		for _, v := range variants(c) {
+			s := base()
+			s.Deb.Compression = v
+			docs = append(docs, c17Doc{"probe|deb.compression|" + v, s.YAML(), []string{"deb"}})
+		}
+	}
+	for _, c := range []string{"gzip", "lzma", "xz", "zstd", "zstd:19"} {
+		for _, v := range variants(c) {
+			s := base()
+			s.RPM.Compression = v
+			docs = append(docs, c17Doc{"probe|rpm.compression|" + v, s.YAML(), []string{"rpm"}})
+		}
+	}
+	for _, t := range []string{"config", "config|noreplace", "dir", "symlink", "ghost", "doc", "tree"} {
+		for _, v := range variants(t) {
+			s := base()
+			e := &gen.Content{Type: v, Dst: "/opt/schemapkg/entry", Src: payload}
+			if t == "symlink" {
+				e.Src = "/nonexistent-verif/t"
+			}
+			s.Contents = append(s.Contents, e)
+			docs = append(docs, c17Doc{"probe|content-type|" + v, s.YAML(), formats})
+		}
+	}
+	for _, vs := range []string{"semver", "none"} {
+		for _, v := range variants(vs) {
+			s := base()
+			s.VersionSchema = v
+			docs = append(docs, c17Doc{"probe|version_schema|" + v, s.YAML(), formats})
+		}
+	}
+	for _, m := range []string{"debsign", "dpkg-sig"} {
+		for _, v := range variants(m) {
+			s := base()
+			s.Deb.Sig = gen.Sig{KeyFile: testKey("privkey_unprotected.asc"), Method: v}
+			docs = append(docs, c17Doc{"probe|deb.signature.method|" + v, s.YAML(), []string{"deb"}})
+		}
+	}
+	for _, t := range []string{"origin", "maint", "archive"} {
+		for _, v := range variants(t) {
+			s := base()
+			s.Deb.Sig = gen.Sig{KeyFile: testKey("privkey_unprotected.asc"), Method: "debsign", Type: v}
+			docs = append(docs, c17Doc{"probe|deb.signature.type|" + v, s.YAML(), []string{"deb"}})
+		}
+	}
+	for _, d := range docs {
+		if strings.HasPrefix(d.label, "probe|") {
+			probes[d.label] = true
+		}
+	}
+
 	// parse / build / validate
 	var accepted []c17Doc
 	var jsons []string
-	built := 0
+	built, probesAccepted := 0, 0
+	var acceptedProbes []string
 	for _, d := range docs {
 		cfg, err := parseYAML(d.yaml, nil)
 		if err != nil {
-			run.Violate("C17/harness-document-rejected-by-parser", map[string]any{"doc": d.label, "error": err.Error()})
+			if !probes[d.label] {
+				run.Violate("C17/harness-document-rejected-by-parser", map[string]any{"doc": d.label, "error": err.Error()})
+			}
 			continue
 		}
-		_ = cfg
-		ok := true
+		ok := cfg.Validate() == nil || !probes[d.label]
 		for _, f := range d.build {
 			res := buildYAML(d.yaml, f)
 			built++
 			if res.Err != nil || res.Panic != "" {
 				ok = false
-				run.Violate("C17/harness-document-does-not-build", map[string]any{"doc": d.label, "format": f, "error": fmt.Sprint(res.Err, ev.Short(res.Panic, 200))})
+				if !probes[d.label] {
+					run.Violate("C17/harness-document-does-not-build", map[string]any{"doc": d.label, "format": f, "error": fmt.Sprint(res.Err, ev.Short(res.Panic, 200))})
+				}
 			}
+		}
+		if probes[d.label] {
+			run.Case("probe|"+d.label+fmt.Sprintf("|accepted=%v", ok), true)
+			if ok {
+				probesAccepted++
+				acceptedProbes = append(acceptedProbes, strings.TrimPrefix(d.label, "probe|"))
+				if v, err := yamlToJSONValue(d.yaml); err == nil {
+					var errs []string
+					sd.validate(sd.root, v, "", &errs)
+					if len(errs) > 0 {
+						parts := strings.Split(d.label, "|")
+						run.Violate("C17/value-outside-schema-accepted-by-parser-and-packager/"+parts[1], map[string]any{"setting": parts[1], "value": parts[2], "schema_errors": errs, "built_for": d.build})
+					}
+				}
+			}
+			continue
 		}
 		if !ok {
 			continue
@@ -541,6 +634,9 @@ func c17(run *ev.Run, tier string) {
 		run.Sample(map[string]any{"doc": accepted[len(accepted)-1].label, "json": ev.Short(jsons[len(jsons)-1], 700)})
 	}
 	run.Set("documents_validated", len(accepted))
+	run.Set("off_schema_spellings_probed", len(probes))
+	run.Set("off_schema_spellings_accepted_by_parser_and_packager", probesAccepted)
+	run.Set("off_schema_spellings_accepted", acceptedProbes)
 	run.Set("packages_built", built)
 
 	// python jsonschema as a second, independent validator
